@@ -146,6 +146,7 @@ class Particle:
     @classmethod
     def export(cls, particles: Iterable['Particle']) -> Element:
         """Reconstruct a DMX file with the specified particles."""
+        particles = list(particles)  # We iterate twice, don't exhaust a one-shot iterator.
         root = Element('', 'DmElement')
         root['particleSystemDefinitions'] = part_list = Attribute.array('', ValueType.ELEMENT)
 
